@@ -395,6 +395,89 @@ def effect_over_state(rng):
     return B, ">".join(shape)
 
 
+def same_box_snake(rng):
+    """ONE snake whose obstructions repeat the same few box specs: x -> x boxes on the incoming and
+    on the outgoing wire of the snake and on context wires of the same type, x @ x -> x @ x boxes
+    over (context, incoming) / (outgoing, context), placed before the cap, BETWEEN cap and cup
+    (2-6 of them: these are the obstructions unsnake slides away, on both sides of the followed
+    leg) and after the cup.  Built by a Family that interns its boxes the same spec is the same
+    Python object (`f >> f`, f before and f after, f on both sides of the snake); without interning
+    they are equal-but-distinct copies.  Left- and right-handed; copies on one wire do not commute."""
+    x = (rng.choice(["a", "b"]), rng.choice([0, 0, 0, 1, -1]))
+    nl, nr = rng.choice([0, 0, 1, 1, 2]), rng.choice([0, 0, 1, 1, 2])
+    other = lambda: x if rng.random() < 0.75 else ("c", 0)
+    pad_l, pad_r = [other() for _ in range(nl)], [other() for _ in range(nr)]
+    B = Build(pad_l + [x] + pad_r, ["p"] * nl + ["w"] + ["p"] * nr)
+    pool = [gbox("h%d" % i, [x], [x]) for i in range(rng.choice([1, 1, 2, 3]))]
+    pool2 = [gbox("k%d" % i, [x, x], [x, x]) for i in range(rng.choice([0, 1, 1, 2]))]
+
+    def place(tags, bias):
+        """One box from the pools on wires carrying one of `tags` (type x), `bias` preferred."""
+        spots = [p for p, t in enumerate(B.tags) if t in tags and B.scan[p] == x]
+        pref = [p for p in spots if B.tags[p] in bias]
+        if not spots:
+            return None
+        p = rng.choice(pref if pref and rng.random() < 0.65 else spots)
+        wide = [q for q in (p - 1, p) if q >= 0 and q + 1 < len(B.scan) and B.scan[q] == x
+                and B.scan[q + 1] == x and B.tags[q] in tags and B.tags[q + 1] in tags]
+        if pool2 and wide and rng.random() < 0.25:
+            q = rng.choice(wide)
+            B.add(rng.choice(pool2), q, [B.tags[q], B.tags[q + 1]])
+            return "k"
+        B.add(rng.choice(pool), p, [B.tags[p]])
+        return B.tags[p]
+    for _ in range(rng.choice([0, 0, 1, 2])):
+        place(("w", "p"), ("w",))
+    p = B.pos("w")
+    hand = rng.choice(["left", "right"])
+    if hand == "left":        # Id(x) @ Cap(x.r, x): the wire comes in on the left, leaves on the right
+        B.add(cap_box(adj(x, 1), x), p + 1, ["leg", "out"])
+        B.tags[p] = "in"
+    else:                     # Cap(x, x.l) @ Id(x)
+        B.add(cap_box(x, adj(x, -1)), p, ["out", "leg"])
+        B.tags[p + 2] = "in"
+    where = []
+    for _ in range(rng.choice([2, 2, 3, 3, 4, 5, 6])):
+        where.append(place(("in", "out", "p"), ("in", "out")))
+    if hand == "left":
+        B.add(cup_box(x, adj(x, 1)), B.pos("in"))
+    else:
+        B.add(cup_box(adj(x, -1), x), B.pos("leg"))
+    B.tags[B.tags.index("out")] = "w"
+    for _ in range(rng.choice([0, 0, 1, 2])):
+        place(("w", "p"), ("w",))
+    shape = "%s:in=%d,out=%d,side=%d,wide=%d" % (
+        hand, min(where.count("in"), 2), min(where.count("out"), 2), min(where.count("p"), 2),
+        min(where.count("k"), 2))
+    return B, shape
+
+
+def snake_spans(d):
+    """(cap, cup) index pairs of the snakes of d (independent wire labelling, as leftover_snake)."""
+    from discopy.rigid import Cup, Cap
+    consumed, _ = wire_labels(d)
+    out = []
+    for j, cons in enumerate(consumed):
+        if not isinstance(d.boxes[j], Cup):
+            continue
+        for port, lab in enumerate(cons):
+            if lab[0] == "in" or not isinstance(d.boxes[lab[0]], Cap):
+                continue
+            cap, cup = d.boxes[lab[0]], d.boxes[j]
+            if (lab[1] == 0 and port == 1 and cup.dom[:1] == cap.cod[1:]) \
+                    or (lab[1] == 1 and port == 0 and cup.dom[1:] == cap.cod[:1]):
+                out.append((lab[0], j))
+    return out
+
+
+def same_object_groups(d):
+    """Groups of positions of d.boxes holding the very same Python object (length >= 2)."""
+    seen = {}
+    for i, b in enumerate(d.boxes):
+        seen.setdefault(id(b), []).append(i)
+    return sorted(g for g in seen.values() if len(g) > 1)
+
+
 def leftover_snake(d):
     """A cap whose leg runs straight into the opposite leg of a cup forming a snake equation."""
     from discopy.rigid import Cup, Cap
@@ -457,6 +540,7 @@ def pinned(fam):
     n, x, y, z = Ty("n"), Ty("x"), Ty("y"), Ty("z")
     f, g = Box("f", x, n @ n.r @ y), Box("g", n @ n.l @ y, z)
     e, st = Box("e", n @ n, Ty()), Box("s", Ty(), n @ n.l)
+    h = Box("h", n, n)
     return [
         # cap with a type-mismatched cup on its left leg and a genuine right-handed snake
         Id(n.r) @ Cap(n, n.l) @ Id(n) >> Cup(n.r, n) @ Id(n.l @ n) >> Cup(n.l, n),
@@ -466,6 +550,12 @@ def pinned(fam):
         f >> Cup(n, n.r) @ Id(y) >> Cap(n, n.l) @ Id(y) >> g,
         # the same on the right of the connecting wire, with an effect and a state
         Box("f", x, y @ n @ n) >> Id(y) @ e >> Id(y) @ st >> Box("g", y @ n @ n.l, z),
+        # ONE box object h obstructing a snake twice: twice on the outgoing wire; on the incoming
+        # and on the outgoing wire; the same for the right-handed mirror images
+        Id(n) @ Cap(n.r, n) >> Id(n @ n.r) @ h >> Id(n @ n.r) @ h >> Cup(n, n.r) @ Id(n),
+        Id(n) @ Cap(n.r, n) >> Id(n @ n.r) @ h >> h @ Id(n.r @ n) >> Cup(n, n.r) @ Id(n),
+        Cap(n, n.l) @ Id(n) >> h @ Id(n.l @ n) >> h @ Id(n.l @ n) >> Id(n) @ Cup(n.l, n),
+        Cap(n, n.l) @ Id(n) >> Id(n @ n.l) @ h >> h @ Id(n.l @ n) >> Id(n) @ Cup(n.l, n),
     ]
 
 
@@ -490,23 +580,43 @@ def run(tier, seed, replay=None):
                    "the model's transcription ties that model to the code on every run"]
     rep.lean = lean_obligations(PROP, thorough=(tier == "thorough"))
     n_diagrams = 600 if tier == "quick" else 9000
+    n_same = 130 if tier == "quick" else 1500      # extra diagrams of the family `same_box_snake`
     rng = random.Random(seed)
+    irng = random.Random("C07-object-identity-%d" % seed)   # its own stream: the others are unchanged
     drv = Driver()
-    fam = Family("rigid")
-    fam_pro = Family("pro")
+    fam_fresh = fam = Family("rigid")
+    fam_pro_fresh = Family("pro")
     try:
         todo_pinned = pinned(fam)
     except Exception as exc:
         todo_pinned = []
         rep.fail("construction_raises:" + err_class(exc), dict(family="pinned"), repr(exc)[:200])
     try:
-        for k in range(-len(todo_pinned), n_diagrams):
+        for k in range(-len(todo_pinned), n_diagrams + n_same):
             sub = random.Random(rng.getrandbits(64))
-            which = k % 12
+            which = k % 12 if k < n_diagrams else 12
             e1 = None
+            # object identity: a third of the diagrams (all of family 12 but one in six) are built by
+            # a family that hands out the SAME Box object for the same spec
+            fam, fam_pro = fam_fresh, fam_pro_fresh
+            if k >= 0 and (which == 12 or irng.random() < 0.34):
+                p_same = irng.choice([1.0, 1.0, 1.0, 1.0, 0.6, 0.0] if which == 12 else [1.0, 1.0, 0.6])
+                fam, fam_pro = fam_fresh.shared(irng, p_same), fam_pro_fresh.shared(irng, p_same)
+                rep.count("boxes_interned:p=%s" % p_same)
             try:
                 if k < 0:
                     kinds, d = ["pinned"], todo_pinned[k]
+                elif which == 12:
+                    B, shape = same_box_snake(sub)
+                    rep.count("same_box_snake:" + shape.split(":")[0])
+                    for tok in shape.split(":")[1].split(","):
+                        rep.count("same_box_snake:" + tok)
+                    e1, kinds = B.expr(), ["same_box_snake"]
+                    if rng.random() < 0.25:
+                        e1, more = insert_snakes(rng, e1, B.scans)
+                        kinds += more
+                    e1 = wrap(rng, e1, rep)
+                    d = shuffle_exchanges(rng, fam.run(e1), tries=rng.choice([0, 0, 3, 10]))
                 elif which == 5:
                     e1, kinds = pro_diagram(sub, rng.randint(2, 6)), ["pro"]
                     d = shuffle_exchanges(rng, fam_pro.run(e1))
@@ -562,9 +672,19 @@ def run(tier, seed, replay=None):
             conn = is_connected(d)
             rep.count("connected" if conn else "disconnected")
             n = len(d.boxes)
+            same = same_object_groups(d)
+            if same:
+                rep.count("diagrams_with_one_object_twice")
+                twice = [g for g in same for c, u in snake_spans(d) if sum(c < i < u for i in g) >= 2]
+                if twice:
+                    rep.count("snake_obstructed_twice_by_one_object" + (":connected" if conn else ""))
+                    if any(len(g) >= 3 for g in twice):
+                        rep.count("snake_obstructed_3_times_by_one_object")
             limit = trace_bound(n) if conn else CAP
             for left in (False, True):
                 case = dict(expr=repr(e), left=left, connected=conn)
+                if same:
+                    case["same_object_at"] = same   # positions of `boxes` holding ONE Python object
                 steps, seen, revisit, err = [], set(), None, None
                 try:
                     for s in itertools.islice(d.normalize(left=left), limit):
